@@ -250,12 +250,22 @@ def check_filter(rep, tier):
         rep.machinery_failure("TLC export failed for filter: " + str(res.error))
         return
     # the regular-expression table of the specification is re-derived with Python's re
-    table = {"a": {"ab"}, "^1$": {"1"}, "task": {"task.a"}}
+    table = {"a": {"ab"}, "^1$": {"1"}, "task": {"task.a"}, "\\d": {"1", "2"}, "task\\.a$": {"task.a"}}
     universe = {"1", "2", "ab", "DONE", "ERROR", "RUNNING", "task.a", "other.b"}
     for pat, want in table.items():
         if {v for v in universe if re.match(pat, v)} != want:
             rep.machinery_failure(f"ReTable of XpmFunctions.tla is wrong for {pat}")
     infos = [FakeInfo(j) for j in jobs]
+    # a text that is not a filter of the documented grammar is refused as a whole (never cut down to a prefix that parses)
+    for text in ('x = "1" and (y = "ab")', 'x != "1"', 'x = "1" y = "2"', 'x = "1" and', 'x == "1"', 'x = "1" )', 'x = "1" or y',
+                 'x in ["1"] and y = "ab" extra', 'x = "1'):
+        rep.cov["evaluations"] += 1
+        try:
+            createFilter(text)
+            rep.violation("C19/filter/ill-formed-accepted", f"'{text}' is not a filter of the documented grammar but is accepted "
+                          "(it would select by its well-formed prefix)", {"filter": text})
+        except Exception:
+            pass
     nontrivial = 0
     for ci, c in enumerate(cases):
         f = c["f"]
